@@ -197,7 +197,7 @@ func report(opt *Options, w *World, results []*ObResult, t0 time.Time) int {
 			engineErr = true
 		}
 	}
-	if opt.Only == "" {
+	if opt.Only == "" && os.Getenv("VERIF_NOEVIDENCE") == "" {
 		if err := writeEvidence(opt, w, results, confirmed, unconfirmed, validated, time.Since(t0)); err != nil {
 			fmt.Printf("ENGINE-ERROR property=%s evidence: %v\n", opt.Property, err)
 			engineErr = true
